@@ -57,7 +57,7 @@ func GenerateIndexing(t *rapid.T, kind string, use func(string) bool) *Program {
 	// array demands a compile-time constant index)
 	i64t, u32t, u64t := IntT(64, true), IntT(32, false), IntT(64, false)
 	if kind != "fixed" {
-		for _, wt := range []*Type{i64t, u32t, u64t} {
+		for _, wt := range []*Type{i64t, u32t, u64t, IntT(128, true), IntT(128, false)} {
 			g.p.Funcs = append(g.p.Funcs, &Func{Name: "id_" + wt.String(), Ret: wt, Params: []Param{{Name: "x", T: wt}}, Body: []Stmt{&Return{X: &Var{T: wt, Name: "x"}}}})
 		}
 	}
@@ -117,7 +117,7 @@ func GenerateIndexing(t *rapid.T, kind string, use func(string) bool) *Program {
 				return &Lit{T: i32, I: big.NewInt(idxLit(label))}
 			}
 			j := idxLit(label)
-			wt := rapid.SampledFrom([]*Type{i64t, i64t, u32t, u64t}).Draw(t, label+"_wt")
+			wt := rapid.SampledFrom([]*Type{i64t, i64t, u32t, u64t, IntT(128, true), IntT(128, false)}).Draw(t, label+"_wt")
 			v := big.NewInt(j)
 			if g.chance(3, label+"_far") {
 				// far outside: must be refused, not truncated to a small index
@@ -174,8 +174,8 @@ func GenerateIndexing(t *rapid.T, kind string, use func(string) bool) *Program {
 	nst := g.intRange(3, 10, "nst")
 	for k := 0; k < nst; k++ {
 		lab := fmt.Sprintf("st%d", k)
-		choice := g.intRange(0, 14, lab)
-		if kind == "fixed" && (choice == 6 || choice == 7 || choice == 8 || choice >= 12) && !g.chance(14, lab+"_nonconst") {
+		choice := g.intRange(0, 16, lab)
+		if kind == "fixed" && (choice == 6 || choice == 7 || choice == 8 || (choice >= 12 && choice <= 14)) && !g.chance(14, lab+"_nonconst") {
 			choice = g.intRange(0, 5, lab+"_alt")
 		}
 		switch choice {
@@ -242,6 +242,55 @@ func GenerateIndexing(t *rapid.T, kind string, use func(string) bool) *Program {
 			} else {
 				g.use("index.assigned_by_uncalled_closure")
 			}
+		case 15, 16: // a function literal indexes with a captured variable (of any integer type) that is reassigned afterwards
+			if kind == "str" && choice == 16 {
+				break
+			}
+			wt := rapid.SampledFrom([]*Type{i32, i64t, u32t, u64t, IntT(128, true), IntT(128, false), i64t, u64t}).Draw(t, lab+"_cwt")
+			first := idxLit(lab + "_c0")
+			if !wt.Signed && first < 0 {
+				first = 0
+			}
+			next := big.NewInt(idxLit(lab + "_c1"))
+			if g.chance(2, lab+"_cfar") {
+				// far outside the i32 range: must be refused, not truncated or reinterpreted
+				_, hi := wt.Range()
+				switch g.intRange(0, 3, lab+"_cfark") {
+				case 0:
+					next.Add(next, new(big.Int).Lsh(big.NewInt(1), 32))
+				case 1:
+					next.Sub(next, new(big.Int).Lsh(big.NewInt(1), 32))
+				case 2:
+					next = new(big.Int).Sub(hi, big.NewInt(int64(g.intRange(0, curLen+1, lab+"_ctop")))) // all-ones region
+				default:
+					next.Add(next, new(big.Int).Lsh(big.NewInt(1), 31))
+				}
+				g.use("index.captured_wide_far_out_of_range")
+			}
+			if lo, hi := wt.Range(); next.Cmp(lo) < 0 || next.Cmp(hi) > 0 {
+				next = new(big.Int).Sub(hi, big.NewInt(int64(g.intRange(0, curLen+1, lab+"_ctop2"))))
+			}
+			wj := g.fresh("wj")
+			fn := g.fresh("acc")
+			f.Body = append(f.Body, &Let{Name: wj, T: wt, Init: &Lit{T: wt, I: big.NewInt(first)}})
+			call := func() Stmt {
+				if choice == 15 {
+					return &Print{Args: []Expr{&Call{T: elemT(at), Fn: fn}}}
+				}
+				return &ExprStmt{X: &Call{T: TVoid, Fn: fn, Args: []Expr{&Lit{T: et, I: big.NewInt(int64(60 + k))}}}}
+			}
+			if choice == 15 {
+				ft := &Type{K: KFn, Ret: elemT(at)}
+				f.Body = append(f.Body, &Let{Name: fn, T: ft, Infer: true, Init: &FnLit{T: ft, Body: []Stmt{&Return{X: &Index{T: elemT(at), X: arrVar(), I: &Var{T: wt, Name: wj}}}}}})
+				g.use("index.captured_variable_read_in_closure")
+			} else {
+				ft := &Type{K: KFn, Params: []*Type{et}, Ret: TVoid}
+				f.Body = append(f.Body, &Let{Name: fn, T: ft, Infer: true, Init: &FnLit{T: ft, Params: []string{"nv"}, Body: []Stmt{&Assign{LHS: &Index{T: et, X: arrVar(), I: &Var{T: wt, Name: wj}}, Op: "=", RHS: &Var{T: et, Name: "nv"}}}}})
+				g.use("index.captured_variable_write_in_closure")
+			}
+			f.Body = append(f.Body, call())
+			f.Body = append(f.Body, &Assign{LHS: &Var{T: wt, Name: wj}, Op: "=", RHS: &Lit{T: wt, I: next}})
+			f.Body = append(f.Body, &Print{Args: []Expr{&Lit{T: TStr, S: fmt.Sprintf("c%d", k)}}}, call())
 		case 14: // the index variable is assigned in a catch handler that runs or does not run
 			if mayFail == nil {
 				str := TStr
